@@ -262,9 +262,16 @@ def load_known_findings(path=None):
     """Parse KNOWN_FINDINGS.txt -> (open: {prop: {key: text}}, fixed: {prop: [text]})."""
     path = path or os.path.join(VERIF, "KNOWN_FINDINGS.txt")
     open_, fixed = {}, {}
-    if not os.path.exists(path):
-        return open_, fixed
-    for line in open(path):
+    lines = []
+    if os.path.exists(path):
+        lines += open(path).read().splitlines()
+    # per-property fragments written while a check is being developed; merged into the main file later
+    fdir = os.path.join(VERIF, "findings.d")
+    if os.path.isdir(fdir):
+        for fn in sorted(os.listdir(fdir)):
+            if fn.endswith(".txt"):
+                lines += open(os.path.join(fdir, fn)).read().splitlines()
+    for line in lines:
         line = line.strip()
         if not line or line.startswith("#"):
             continue
